@@ -335,6 +335,10 @@ class _NoGrad:
         return w
 
 
+def GRAD_MODEL_ON():
+    return T.GRAD_ENABLED[0]
+
+
 def make_torch():
     from . import nn as NN
     m = types.ModuleType("torch")
@@ -388,6 +392,17 @@ def make_torch():
     m.unique = T.unique
     m.any = lambda x, *a, **k: x.any(*a, **k)
     m.all = lambda x, *a, **k: x.all(*a, **k)
+    def clamp(x, min=None, max=None):
+        def f(v):
+            if min is not None:
+                v = ite(v < min, min, v)
+            if max is not None:
+                v = ite(v > max, max, v)
+            return v
+        if GRAD_MODEL_ON() and x.requires_grad:
+            raise Inconclusive("autograd model: clamp of a tracked tensor")
+        return Tensor(T._uf(f, 1)(x.a), dtype=x.dtype)
+    m.clamp = clamp
     m.numel = lambda x: x.numel()
     m.matmul = T.matmul
     m.transpose = lambda x, a, b: x.transpose(a, b)
